@@ -1119,8 +1119,12 @@ class WCS(GWCSAPIMixin):
         """
         transform = self.get_transform(from_frame, to_frame)
         if not utils.isnumerical(args[0]):
-            inp_frame = getattr(self, from_frame)
+            # ``from_frame`` may be a frame object; a frame of one axis
+            # returns its quantity bare
+            inp_frame = getattr(self, self._get_frame_name(from_frame)[0])
             args = inp_frame.coordinate_to_quantity(*args)
+            if inp_frame.naxes == 1:
+                args = [args]
             if not transform.uses_quantity:
                 args = utils.get_values(inp_frame.unit, *args)
 
